@@ -325,8 +325,33 @@ def barrier_opens_when_empty(chk, rule: str) -> None:
     import ast as _ast
     from ..decisions import paths_under
     from ..rules import last_name as _last
-    from ..model import walk_shallow as _ws
+    from ..model import walk_shallow as _ws, norm as _nm
+    from ..cfg import cfg_of as _cfg_of, no_exc as _no_exc
     prog = chk.prog
+    # ... and it is only the done-callback that takes items off the table: every awaited item gets that callback registered when the state is entered (on every path
+    # through the loop -- an item that is already done included: its callback is simply scheduled at once), nothing else removes entries (a removal elsewhere is not
+    # followed by the "was it the last one?" test, and if it was, nobody opens the barrier)
+    wcw = prog.cls('workchains.Waiting')
+    en = prog.view(wcw.vmethods['enter']) if 'enter' in wcw.vmethods else None
+    if en is not None:
+        ecfg = _cfg_of(en)
+        its = [m for m in ecfg.nodes if m.kind == 'iter' and 'self._awaiting' in _nm(m.ast.iter)]
+        regs = [m for m in ecfg.nodes if m.expr() is not None and any(isinstance(c, _ast.Call) and _last(c) == 'add_done_callback' and [_nm(a) for a in c.args] == ['self._awaitable_done']
+                                                                      for c in _ws(m.expr()))]
+        okw = bool(its) and bool(regs)
+        for it in its:
+            body = [t for t, l in it.succ if l not in ('exc', 'uncaught', 'handler') and it.id in ecfg.reachable([t], edge_ok=_no_exc)]
+            okw = okw and bool(body) and all(ecfg.must_pass(b, [it], lambda x: x in regs, edge_ok=_no_exc) for b in body)
+        chk.ob(rule, en, okw, 'entering the waiting state registers the done-callback on EVERY awaited item (no path through the loop skips it)', kind='every-item-watched')
+    for g in wcw.emethods.values():
+        gv = prog.view(g)
+        if gv.name in ('_awaitable_done', '__init__', 'load_instance_state'):
+            continue
+        rem = [c for c in _ast.walk(gv.node) if isinstance(c, _ast.Call) and isinstance(c.func, _ast.Attribute) and c.func.attr in ('pop', 'popitem', 'clear') and _nm(c.func.value) == 'self._awaiting'] + [
+            d for d in _ast.walk(gv.node) if isinstance(d, _ast.Delete) and any(isinstance(t, _ast.Subscript) and _nm(t.value) == 'self._awaiting' for t in d.targets)]
+        if rem:
+            chk.ob(rule, gv, False, f'{gv.short} takes an item off the table of awaited items outside the done-callback: if it was the last one, nothing opens the barrier', node=rem[0],
+                   kind='items-removed-only-by-callback')
     ad = prog.try_func('workchains.Waiting._awaitable_done')
     if ad is None:
         chk.ob(rule, 'workchains.Waiting._awaitable_done', False, 'the done-callback of the awaited items was not found', kind='barrier-opens-when-empty')
